@@ -1,5 +1,6 @@
 import RreModel.Proto
 import RreModel.C09.Spec
+import RreModel.C09.Candidates
 /-
 Driver for C09 / C10-B.  Grammar: see harness/src/bin/c09.rs.
   obs := `<provable 1|0|err> <facts after> <undo depth after> <#solutions>`
@@ -152,76 +153,18 @@ def parseCase (line : String) : Option Case :=
     pure ⟨st, d, m, ← parseFacts f, reparse (← parseAtom q), kb⟩
   | _ => none
 
-/-! ### candidate lists, computed the way the code does -/
+/-! ### candidate lists: computed by the model (`RreModel/C09/Candidates.lean`; `C09.topCandidates_covers`,
+`C09.subCandidates_covers` prove that they offer every rule assigning the wanted value) -/
 
-def isInfix (pat s : List Char) : Bool :=
-  match s with
-  | [] => pat.isEmpty
-  | _ :: tl => pat.isPrefixOf s || isInfix pat tl
+/-- the text of the tie (harness/src/bin/c09.rs): field `i` is `FIELDS[i]`, rule `i` is named `R<i>` -/
+def tieNames : Naming := ⟨fieldName, ruleNameR⟩
 
-def contains (s pat : String) : Bool := isInfix pat.toList s.toList
+/-- `rule_could_prove_pattern` over `kb.get_rules()` (insertion order: equal salience) -/
+def subCandsOf (kb : List Rule) (a : Atom) : List Nat := subCandidates tieNames kb a
 
-def cmpStr : Cmp → String
-  | .eq => "==" | .ne => "!=" | .gt => ">" | .lt => "<" | .ge => ">=" | .le => "<="
-
-/-- `condition_to_goal_pattern` (condition literals are scalars in the tie) -/
-def patternOf (a : Atom) : String :=
-  let v := match a.val with
-    | .bool b => if b then "true" else "false"
-    | .num n => toString n
-    | .int n => toString n
-    | .str s => "\"" ++ s ++ "\""
-    | .arr _ => "?"
-    | .obj _ => "?"
-  s!"{fieldName a.field} {cmpStr a.op} {v}"
-
-/-- fields of the rule's `Set` actions (anywhere in its action list) -/
-def setFields (r : Rule) : List Nat :=
-  r.acts.map (·.1) ++ r.more.filterMap fun | .set f _ => some f | _ => none
-/-- objects of its `MethodCall` actions (the method names `setSpeed` / `getSpeed` occur in no pattern of the tie) -/
-def callFields (r : Rule) : List Nat := r.more.filterMap fun | .call f _ => some f | .get f _ => some f | _ => none
-def callNames (r : Rule) : List String :=
-  r.more.flatMap fun
-    | .call f _ => [fieldName f ++ ".setSpeed", fieldName f]
-    | .get f _ => [fieldName f ++ ".getSpeed", fieldName f]
-    | _ => []
-def retractFields (r : Rule) : List Nat := r.more.filterMap fun | .retract f => some f | _ => none
-
-/-- `rule_could_prove_pattern` over `kb.get_rules()` (insertion order: equal salience): a `Set` whose
-field, or a `MethodCall` whose object, occurs in the pattern text (`Append` / `Retract` do not count) -/
-def subCandsOf (kb : List Rule) (a : Atom) : List Nat :=
-  let pat := patternOf a
-  (List.range kb.length).filter fun i =>
-    match kb[i]? with
-    | some r => (setFields r ++ callFields r).any fun f => contains pat (fieldName f)
-    | none => false
-
-/-- `ConclusionIndex::extract_conclusions`: `Set` field; `MethodCall` `object.method` and `object`;
-`Retract` object (`Append` is not indexed) -/
-def conclusions (r : Rule) : List String :=
-  (setFields r).map fieldName ++ callNames r ++ (retractFields r).map fieldName
-
-/-- `ConclusionIndex::find_candidates` (as a set; the order is the HashSet's) with the linear
-fallback of `find_candidate_rules` -/
-def topCandSet (kb : List Rule) (goal : Atom) : List Nat :=
-  let fname := fieldName goal.field
-  let idx := List.range kb.length
-  let direct := idx.filter fun i => match kb[i]? with | some r => (conclusions r).any (· == fname) | none => false
-  let viaObject :=
-    match (fname.splitOn ".").dropLast with
-    | [] => []
-    | parts =>
-      let object := ".".intercalate parts
-      idx.filter fun i => match (kb[i]? : Option Rule) with
-        | some r => (conclusions r).any fun c => c.startsWith object
-        | none => false
-  let cands := idx.filter fun i => direct.contains i || viaObject.contains i
-  if !cands.isEmpty then cands
-  else
-    let pat := patternOf goal
-    idx.filter fun i => match kb[i]? with
-      | some r => contains pat s!"R{i}" || (setFields r ++ callFields r).any fun f => contains pat (fieldName f)
-      | none => false
+/-- `find_candidate_rules`: `ConclusionIndex::find_candidates` (as a set; the order is the HashSet's) with its
+linear fallback -/
+def topCandSet (kb : List Rule) (goal : Atom) : List Nat := topCandidates tieNames kb goal
 
 def perms : List Nat → List (List Nat)
   | [] => [[]]
